@@ -138,7 +138,13 @@ class Interp:
                 return mul(a, (1.0 / b[1], 1.0 / b[0]))
             return TOP
         if isinstance(e, ast.IfExp):
-            return join(self.eval(e.body, env, depth, mod), self.eval(e.orelse, env, depth, mod))
+            # each arm under what its side of the test says about the tested name (as for an if statement)
+            ea, eb = self.refine(e.test, env, True, depth), self.refine(e.test, env, False, depth)
+            a = self.eval(e.body, ea, depth, mod) if ea is not None else None
+            b = self.eval(e.orelse, eb, depth, mod) if eb is not None else None
+            if a is None or b is None:
+                return a if b is None else b
+            return join(a, b)
         if isinstance(e, ast.Call):
             fn = norm(e.func)
             args = e.args
